@@ -1062,7 +1062,20 @@ func (ex *Exec) selectOp(st *State, fr *Frame, v *ssa.Select) {
 			if sc.Dir == types.SendOnly {
 				kind = "select.send"
 			}
-			ex.event(s, &Event{Callee: "chan." + kind, Args: []Value{ex.eval(f, sc.Chan)}, Instr: v, Fn: f.Fn, Kind: kind})
+			ev := &Event{Callee: "chan." + kind, Args: []Value{ex.eval(f, sc.Chan)}, Instr: v, Fn: f.Fn, Kind: kind}
+			if sc.Dir != types.SendOnly {
+				// results of a receive case: ar0 = ok, ar1 = the received value
+				pos := 2
+				for j := 0; j < idx; j++ {
+					if v.States[j].Dir != types.SendOnly {
+						pos++
+					}
+				}
+				if pos < len(res.E) {
+					ev.Results = []Value{res.E[1], res.E[pos]}
+				}
+			}
+			ex.event(s, ev)
 		}
 	}
 	n := len(v.States)
